@@ -21,6 +21,11 @@ NOW = 1000000            # model mtime of files created by copying
 # prior workspaces containing a dangling symbolic link (e.g. its cache object was collected): the dry
 # re-staging fails, checkout goes on without an old tree.  One switch for the whole class.
 INCLUDE_DANGLING = os.environ.get("VERIF_OBJCO_DANGLING", "1") != "0"
+# LocalHashFileDB.check trusts an object whose mode is 0o444 without hashing it (C07's trust-by-mode): when the
+# cache object of a workspace file's OLD version is corrupt but write-protected, in_cache is true and an unforced
+# checkout replaces the file although its bytes are in no cache object.  ASSUMPTIONS exclude corrupt cache
+# objects (C07); the input is kept here behind one switch, reported to the lead, OFF by default.
+INCLUDE_CORRUPT_PROTECTED = os.environ.get("VERIF_OBJCO_CORRUPT_PROTECTED", "0") == "1"
 KINDS = ("copy", "hardlink", "symlink")
 LK = {"copy": "LCopy", "hardlink": "LHard", "symlink": "LSym"}
 
@@ -59,7 +64,8 @@ def gen_case(rng, stream: str) -> dict:
         types = [rng.choice(KINDS)]
     else:
         types = rng.choice([["reflink", "copy"], ["hardlink", "copy"], ["symlink", "hardlink"],
-                            ["copy", "hardlink"], ["hardlink", "symlink"], ["reflink", "symlink", "copy"]])
+                            ["copy", "hardlink"], ["hardlink", "symlink"], ["reflink", "symlink", "copy"],
+                            ["reflink", "hardlink", "copy"]])
     case = {
         "stream": stream,
         "cls": rng.choice(["local", "base"]),
@@ -323,8 +329,15 @@ def obj_path(cache, oid):
 def setup(ctx, case):
     root = ctx.fresh("co")
     cache = os.path.join(root, "cache")
-    ws = os.path.join(root, "ws")
+    if case.get("ws_via_symlink"):
+        # the workspace is reached through a symlinked parent directory
+        os.makedirs(os.path.join(root, "realp"))
+        os.symlink(os.path.join(root, "realp"), os.path.join(root, "lnk"))
+        ws = os.path.join(root, "lnk", "ws")
+    else:
+        ws = os.path.join(root, "ws")
     tmp = os.path.join(root, "tmp")
+    cache2 = os.path.join(root, "cache2")               # ANOTHER cache, for links that do not point into ours
     os.makedirs(cache)
     os.makedirs(tmp)
     clock = Clock()
@@ -363,8 +376,30 @@ def setup(ctx, case):
                     wsfirst[cid] = p
                 else:
                     os.link(first, p)
+            elif kind in ("xsym", "xhard"):
+                other = impl.plant(cache2, md5hex(contents[cid]), contents[cid])
+                clock.stamp(other)
+                if kind == "xsym":
+                    os.symlink(other, p)
+                elif contents[cid] == b"":
+                    with open(p, "wb") as f:
+                        f.write(b"")
+                    clock.stamp(p)
+                else:
+                    os.link(other, p)
             elif kind == "dangling":
                 os.symlink(os.path.join(cache, "zz", "gone"), p)
+        for d in case.get("empty_dirs", []):            # untracked empty directories / directories of empty directories
+            os.makedirs(os.path.join(ws, *d.split("/")), exist_ok=True)
+    for cid, st in sorted(case.get("cache_state", {}).items()):
+        p = obj_path(cache, md5hex(contents[cid]))
+        if os.path.exists(p):
+            os.chmod(p, 0o644)
+            if st.startswith("corrupt"):
+                with open(p, "wb") as f:
+                    f.write(b"corrupt " + contents[cid][::-1])
+                clock.stamp(p)
+            os.chmod(p, 0o444 if st == "corrupt_protected" else 0o644)
     for cid in sorted(need - set(case["cache"])):       # collected from the cache meanwhile
         p = obj_path(cache, md5hex(contents[cid]))
         os.chmod(p, 0o644)
@@ -372,7 +407,9 @@ def setup(ctx, case):
     return root, cache, ws, tmp, contents
 
 
-def mk_target(case, contents):
+def mk_target(case, contents, odb=None, scratch=None):
+    """the target Tree, by the route case["route"]: direct (Tree.add + digest, default), load (the .dir object is
+    planted in the cache and read back with Tree.load), build (a scratch directory staged dry by build())"""
     from dvc_data.hashfile.hash_info import HashInfo
     from dvc_data.hashfile.meta import Meta
     from dvc_data.hashfile.tree import Tree
@@ -380,12 +417,26 @@ def mk_target(case, contents):
     t = Tree()
     for rel in sorted(case["target"]):
         b = contents[case["target"][rel]]
-        t.add(tuple(rel.split("/")), Meta(size=len(b)), HashInfo("md5", md5hex(b)))
+        hi = HashInfo("md5", md5hex(b), obj_name=rel) if case.get("obj_names") else HashInfo("md5", md5hex(b))
+        t.add(tuple(rel.split("/")), Meta(size=len(b)), hi)
     t.digest()
+    route = case.get("route", "direct")
+    if route == "load" and odb is not None:
+        if not os.path.exists(obj_path(odb.path, t.hash_info.value)):
+            impl.plant(odb.path, t.hash_info.value, t.as_bytes())
+        return Tree.load(odb, HashInfo("md5", t.hash_info.value, obj_name="data" if case.get("obj_names") else None))
+    if route == "build" and odb is not None and scratch is not None:
+        from dvc_objects.fs.local import localfs
+
+        from dvc_data.hashfile.build import build
+
+        d = os.path.join(scratch, "stage-src")
+        impl.mk_tree(d, {rel: contents[cid] for rel, cid in case["target"].items()})
+        return build(odb, d, localfs, "md5", dry_run=True)[2]
     return t
 
 
-def call_checkout(case, ws, cache, tmp, contents, relink, state_obj, odb):
+def call_checkout(case, ws, cache, tmp, contents, relink, state_obj, odb, fault=None):
     """one real checkout; returns (outcome, observed key order, link-record dict or None, asked)"""
     import dvc_data.hashfile.checkout as co
     import dvc_data.hashfile.utils as ut
@@ -425,12 +476,34 @@ def call_checkout(case, ws, cache, tmp, contents, relink, state_obj, odb):
         asked.append((rel, ans))
         return ans
 
+    real_transfer = co.transfer
+    nlink = [0]
+
+    def transfer_fault(*a, **kw):
+        # one failing link creation: the n-th call of the link primitive raises
+        nlink[0] += 1
+        if nlink[0] == fault["at"]:
+            import errno
+            if fault["exc"] == "FileNotFoundError":
+                raise FileNotFoundError(errno.ENOENT, "injected", a[1] if len(a) > 1 else "")
+            if fault["exc"] == "PermissionError":
+                raise PermissionError(errno.EACCES, "injected")
+            raise OSError(errno.EIO, "injected")
+        return real_transfer(*a, **kw)
+
+    kwargs = {}
+    if case.get("callback"):
+        from fsspec.callbacks import Callback
+        kwargs["progress_callback"] = Callback()
+    target = mk_target(case, contents, odb, tmp)
     co.odiff = odiff_obs
     ut._tokenize_mtimes = tok_obs
+    if fault:
+        co.transfer = transfer_fault
     try:
         try:
-            r = co.checkout(ws, localfs, mk_target(case, contents), odb, force=case["force"], relink=relink,
-                            state=state_obj, prompt=None if mode == "none" else prompt, quiet=True)
+            r = co.checkout(ws, localfs, target, odb, force=case["force"], relink=relink,
+                            state=state_obj, prompt=None if mode == "none" else prompt, quiet=not case.get("loud"), **kwargs)
             out = ("none",) if r is None else ("ret", bool(r))
         except co.PromptError as exc:
             out = ("prompt", os.path.relpath(exc.path, ws).replace(os.sep, "/"))
@@ -446,6 +519,7 @@ def call_checkout(case, ws, cache, tmp, contents, relink, state_obj, odb):
     finally:
         co.odiff = real_odiff
         ut._tokenize_mtimes = real_tok
+        co.transfer = real_transfer
     return out, order, (recorded[-1] if recorded else None), asked
 
 
@@ -583,6 +657,97 @@ def rec_val(case, enc, ws, rec):
     return vL([vL(items)])
 
 
+def dimensions(case, smode, links, ws0):
+    """the input dimensions of tools/COVERAGE_AUDIT.md this case has (counted into the evidence)"""
+    import unicodedata
+
+    out = set()
+    names = set()
+    for rel in list(case["target"]) + list(case.get("prior") or {}):
+        names.update(rel.split("/"))
+    for n in names:
+        if "\\" in n:
+            out.add("name:backslash")
+        if " " in n:
+            out.add("name:space")
+        if n.startswith("."):
+            out.add("name:leading-dot")
+        if any(ord(ch) > 127 for ch in n):
+            out.add("name:non-ascii")
+        if any(ord(ch) > 0xFFFF for ch in n):
+            out.add("name:emoji")
+        if unicodedata.normalize("NFC", n) != n:
+            out.add("name:not-NFC")
+            if unicodedata.normalize("NFC", n) in names:
+                out.add("name:NFC-twins")
+        if n.endswith(".dir"):
+            out.add("name:ends-in-.dir")
+        if len(n) == 1:
+            out.add("name:1-char")
+        if len(n) >= 200:
+            out.add("name:200-chars")
+        if any(m != n and m.startswith(n) for m in names):
+            out.add("name:prefix-siblings")
+        if any(m != n and m.lower() == n.lower() for m in names):
+            out.add("name:case-twins")
+    tgt = case["target"]
+    if any(rel.count("/") >= 3 for rel in tgt):
+        out.add("shape:depth>=3")
+    vals = list(tgt.values())
+    if len(set(vals)) < len(vals):
+        out.add("shape:duplicate-contents")
+    if any(case["contents"][c] == "" for c in vals):
+        out.add("shape:zero-length-file")
+        if "hardlink" in case["types"]:
+            out.add("shape:zero-length-under-hardlink")
+    if case.get("empty_dirs"):
+        out.add("shape:empty-dirs-in-workspace")
+    if len(tgt) == 1:
+        out.add("shape:one-file-directory")
+    if case.get("obj_names"):
+        out.add("ident:obj_name-label")
+    out.add("route:" + case.get("route", "direct"))
+    out.add("flag:force=%s" % case["force"])
+    out.add("flag:relink=%s" % case["relink"])
+    out.add("flag:prompt=" + (case["prompt"] if isinstance(case["prompt"], str) else "some"))
+    out.add("flag:state=" + smode)
+    out.add("flag:force×relink×prompt×state=%s/%s/%s/%s" % (case["force"], case["relink"],
+            case["prompt"] if isinstance(case["prompt"], str) else "some", smode))
+    if case.get("callback"):
+        out.add("flag:progress_callback=non-default")
+    if case.get("loud"):
+        out.add("flag:quiet=False")
+    out.add("types:" + "+".join(case["types"]))
+    if len(case["types"]) > 1 and links and links[0] != case["types"][0]:
+        out.add("types:first-type-unavailable")
+    out.add("class:" + case["cls"])
+    prior = case.get("prior")
+    if prior is None:
+        out.add("ws:absent")
+    else:
+        for rel, (cid, kind) in prior.items():
+            out.add("ws:kind=" + kind)
+            if rel not in tgt:
+                out.add("ws:untracked-path-outside-target")
+            if cid not in case["cache"] and kind == "copy":
+                out.add("ws:uncached-user-content")
+        if any(e["broken"] for e in ws0.values()):
+            out.add("ws:dangling-link")
+    if case.get("ws_via_symlink"):
+        out.add("ws:through-symlinked-parent")
+    for st in (case.get("cache_state") or {}).values():
+        out.add("cache:object-" + st)
+    if any(c not in case["cache"] for c in vals):
+        out.add("cache:target-object-missing")
+    if case.get("fault"):
+        out.add("fault:link-%s@%s" % (case["fault"]["exc"], case["fault"]["at"]))
+    if case.get("call2"):
+        out.add("history:two-calls")
+    if case.get("prelude"):
+        out.add("history:prelude")
+    return out
+
+
 def run_case(ctx, case):
     """Runs the case (first call, then a second call) on the real code.  Returns a dict with the
     correspondence items and the oracle problems of C05 and C10."""
@@ -591,11 +756,21 @@ def run_case(ctx, case):
     case = normalise(case)
     root, cache, ws, tmp, contents = setup(ctx, case)
     links = tested_links(case["types"], cache, ws)
-    state_obj = State(root_dir=root, tmp_dir=tmp) if case["state"] else None
+    # State: absent / noop (StateNoop passed) / real (a State passed to checkout only) / shared (also the odb's state)
+    smode = case.get("state_mode") or ("shared" if case["state"] else "absent")
+    case = dict(case, state=(smode != "absent"))
+    real_state = smode in ("real", "shared")
+    if smode == "noop":
+        from dvc_data.hashfile.state import StateNoop
+        state_obj = StateNoop()
+    else:
+        state_obj = State(root_dir=root, tmp_dir=tmp) if real_state else None
     cfg = {"type": list(case["types"])}
-    if state_obj is not None:
+    if smode == "shared":
         cfg["state"] = state_obj
     odb = impl.make_odb(case["cls"], cache, **cfg)
+    if case.get("route") == "load":
+        mk_target(case, contents, odb, tmp)               # plants the .dir object before the cache is snapshotted
 
     # prelude: an EARLIER checkout in this process on the same cache and workspace directories, possibly while
     # some target objects are not yet in the cache (they are fetched afterwards) and/or under another configured
@@ -621,9 +796,10 @@ def run_case(ctx, case):
     res = {"items": [], "c05": [], "c10": [], "nontrivial": False, "tags": []}
     ws0, c0 = snap_ws(ws), snap_cache(cache)
     enc = Enc(cache, c0, ws0)
-    out1, order1, rec1, asked1 = call_checkout(case, ws, cache, tmp, contents, case["relink"], state_obj, odb)
+    out1, order1, rec1, asked1 = call_checkout(case, ws, cache, tmp, contents, case["relink"], state_obj, odb,
+                                               fault=case.get("fault"))
     ws1, c1 = snap_ws(ws), snap_cache(cache)
-    links1 = read_links(state_obj) if state_obj is not None else None
+    links1 = read_links(state_obj) if real_state else None
     token1 = indep_token(ws) if os.path.isdir(ws) else None
     ino1 = os.stat(ws).st_ino if os.path.isdir(ws) else None
     relink2 = case["relink"] if case["second"] == "same" else False
@@ -713,6 +889,8 @@ def run_case(ctx, case):
             if rel in yes:
                 continue
             sig = "C05:unrecoverable-lost" + (":old-tree-build-failed" if any(x["broken"] for x in before.values()) else "")
+            if o in cbefore and cbefore[o]["mode"] == 0o444:
+                sig += ":old-object-corrupt-but-protected"
             res["c05"].append((sig, f"{tag}: '{rel}' held {e['bytes'][:30]!r} (not in the cache), unforced checkout left "
                                     f"{None if a is None or a['bytes'] is None else a['bytes'][:30]!r} without an affirmative prompt"))
         if out[0] == "prompt":
@@ -723,11 +901,16 @@ def run_case(ctx, case):
 
     # ---- oracle C10
     for cb, ca, tag in ((c0, c1, "call1"), (c1b, c2, "call2")):
-        if {o: v["bytes"] for o, v in cb.items()} != {o: v["bytes"] for o, v in ca.items()}:
-            res["c10"].append(("C10:cache-bytes-changed", f"{tag}: the byte snapshot of the cache changed"))
+        def intact(o, b):
+            return md5hex(b) == o.split(".")[0]
+        changed = [o for o, v in cb.items() if intact(o, v["bytes"]) and (o not in ca or ca[o]["bytes"] != v["bytes"])]
+        changed += [o for o, v in ca.items() if o in cb and not intact(o, cb[o]["bytes"]) and v["bytes"] != cb[o]["bytes"]]
+        changed += [o for o in ca if o not in cb]
+        if changed:
+            res["c10"].append(("C10:cache-bytes-changed", f"{tag}: the byte snapshot of the cache changed for {sorted(changed)[:3]}"))
     tgt_bytes = {rel: contents[cid] for rel, cid in case["target"].items()}
-    all_cached = all(md5hex(b) in c0 for b in tgt_bytes.values())
-    in_quant = case["force"] and all_cached and bool(links)
+    all_cached = all(md5hex(b) in c0 and c0[md5hex(b)]["bytes"] == b for b in tgt_bytes.values())   # present and intact
+    in_quant = case["force"] and all_cached and bool(links) and not case.get("fault")   # an injected link fault is outside the quantifier
     tagq = ":old-tree-build-failed" if dangling else ""
     if in_quant and dangling:
         # without an old tree nothing is deleted or relinked (the known finding), but every TARGET path is still
@@ -791,7 +974,7 @@ def run_case(ctx, case):
                     res["c10"].append(("C10:not-converged" + t2, f"call 2 of a history (after {hist.get('user')}): workspace differs "
                                        f"from the target: {sorted(set(got2) ^ set(tgt2)) or [r for r in got2 if got2[r] != tgt2[r]]}"))
     # link record: whenever a record was saved by a call that completed, it matches the workspace
-    if case["state"] and rec1 is not None and out1[0] in ("none", "ret"):
+    if real_state and rec1 is not None and out1[0] in ("none", "ret"):
         row = links1.get(os.path.relpath(ws, root)) if links1 else None
         if row is None or tuple(row) != (ino1, token1):
             res["c10"].append(("C10:link-record-mismatch", f"saved link record {row} != (inode, token) of the workspace {(ino1, token1)}"))
@@ -808,6 +991,9 @@ def run_case(ctx, case):
     if case["prior"]:
         for _, kind in case["prior"].values():
             res["tags"].append(f"prior-kind:{kind}")
+    dd = ctx.extra.setdefault("input_dimensions", {})
+    for d in dimensions(case, smode, links, ws0):
+        dd[d] = dd.get(d, 0) + 1
     res["nontrivial"] = out1[0] != "none" and (ws1 != ws0 or out1[0] not in ("ret",))
     res["outs"] = (out1, out2)
     impl.rm_rf(root)
